@@ -34,8 +34,17 @@ Sid == [pc |-> pc, rk |-> rkey, rd |-> rkind, rl |-> rlim,
         sem |-> sem, ws |-> wsOpen]
 
 MCInit == Init /\ hist = <<>>
-MCNextNoWatch == SysNext /\ hist' = <<>>
-MCNext == Next /\ hist' = <<>>
+(* one named action per disjunct, so that TLC's coverage statistics are per action *)
+MCArrive == (\E r \in Reqs, k \in Keys, kind \in Kinds : Arrive(r, k, kind)) /\ hist' = <<>>
+MCCacheGet == (\E r \in Reqs : CacheGet(r)) /\ hist' = <<>>
+MCCacheAdd == (\E r \in Reqs : CacheAdd(r)) /\ hist' = <<>>
+MCAllow == (\E r \in Reqs : Allow(r)) /\ hist' = <<>>
+MCAcquire == (\E r \in Reqs : Acquire(r)) /\ hist' = <<>>
+MCFinish == (\E r \in Reqs, how \in {"returned", "panicked", "cancelled"} : Finish(r, how)) /\ hist' = <<>>
+MCTick == Tick /\ hist' = <<>>
+MCNextNoWatch == MCArrive \/ MCCacheGet \/ MCCacheAdd \/ MCAllow \/ MCAcquire \/ MCFinish \/ MCTick
+MCStartWatch == (\E k \in Keys : StartWatch(k)) /\ hist' = <<>>
+MCNext == MCNextNoWatch \/ MCStartWatch
 MCSimNext == SysNext /\ hist' = Append(hist, [l |-> lab', o |-> out', p |-> Proj'])
 
 EdgeOut == PrintT(<<"EDGE", ToJson([f |-> Sid, l |-> lab', o |-> out', t |-> Sid', p |-> Proj'])>>)
